@@ -479,36 +479,45 @@ impl<'s> ProguardMapper<'s> {
 
     /// Remaps a complete Java StackTrace.
     pub fn remap_stacktrace_typed<'a>(&'a self, trace: &StackTrace<'a>) -> StackTrace<'a> {
-        let exception = trace
-            .exception
-            .as_ref()
-            .map(|t| self.remap_throwable(t).unwrap_or_else(|| t.clone()));
+        // The cause chain is walked iteratively: a trace parsed from untrusted text can be
+        // arbitrarily deep, and recursing once per cause would exhaust the stack.
+        let mut levels = Vec::new();
+        let mut current = Some(trace);
+        while let Some(trace) = current {
+            let exception = trace
+                .exception
+                .as_ref()
+                .map(|t| self.remap_throwable(t).unwrap_or_else(|| t.clone()));
 
-        let frames =
-            trace
-                .frames
-                .iter()
-                .fold(Vec::with_capacity(trace.frames.len()), |mut frames, f| {
-                    let mut peek_frames = self.remap_frame(f).peekable();
-                    if peek_frames.peek().is_some() {
-                        frames.extend(peek_frames);
-                    } else {
-                        frames.push(f.clone());
-                    }
+            let frames =
+                trace
+                    .frames
+                    .iter()
+                    .fold(Vec::with_capacity(trace.frames.len()), |mut frames, f| {
+                        let mut peek_frames = self.remap_frame(f).peekable();
+                        if peek_frames.peek().is_some() {
+                            frames.extend(peek_frames);
+                        } else {
+                            frames.push(f.clone());
+                        }
 
-                    frames
-                });
+                        frames
+                    });
 
-        let cause = trace
-            .cause
-            .as_ref()
-            .map(|c| Box::new(self.remap_stacktrace_typed(c)));
-
-        StackTrace {
-            exception,
-            frames,
-            cause,
+            levels.push((exception, frames));
+            current = trace.cause.as_deref();
         }
+
+        let mut remapped: Option<StackTrace<'a>> = None;
+        for (exception, frames) in levels.into_iter().rev() {
+            remapped = Some(StackTrace {
+                exception,
+                frames,
+                cause: remapped.map(Box::new),
+            });
+        }
+        // `levels` contains at least the top-level trace.
+        remapped.unwrap()
     }
 }
 
